@@ -155,7 +155,14 @@ func (it *Interp) compositeLit(x *ast.CompositeLit) Value {
 	st := structOf(tv.Type)
 	if st == nil {
 		// numeric slices: []float64{a, b}
-		if _, isSlice := tv.Type.Underlying().(*types.Slice); isSlice {
+		if slt, isSlice := tv.Type.Underlying().(*types.Slice); isSlice {
+			if b, isBasic := slt.Elem().Underlying().(*types.Basic); !isBasic || b.Info()&types.IsNumeric == 0 {
+				l := &ListVal{}
+				for _, e := range x.Elts {
+					l.Elems = append(l.Elems, it.eval(e))
+				}
+				return l
+			}
 			sl := &SliceVal{Len: sym.Int(int64(len(x.Elts))), Cells: map[string]*sym.Term{}}
 			for i, e := range x.Elts {
 				v := it.eval(e)
@@ -339,9 +346,21 @@ func (it *Interp) inlineCall(fd *ast.FuncDecl, info *types.Info, recv Value, arg
 		frame[info.Defs[fd.Recv.List[0].Names[0]]] = recv
 	}
 	k := 0
+	spread := it.spread
+	it.spread = false
 	for _, f := range fd.Type.Params.List {
+		_, variadic := f.Type.(*ast.Ellipsis)
 		for _, n := range f.Names {
-			if k < len(args) {
+			switch {
+			case variadic && spread && k < len(args):
+				frame[info.Defs[n]] = args[k] // f(xs...)
+			case variadic:
+				l := &ListVal{}
+				if k < len(args) {
+					l.Elems = append(l.Elems, args[k:]...)
+				}
+				frame[info.Defs[n]] = l
+			case k < len(args):
 				frame[info.Defs[n]] = args[k]
 			}
 			k++
@@ -421,6 +440,7 @@ func (it *Interp) structMethod(recv *StructVal, fn *types.Func, call *ast.CallEx
 	for _, a := range call.Args {
 		args = append(args, it.eval(a))
 	}
+	it.spread = call.Ellipsis != token.NoPos
 	// promoted method: the receiver is the embedded object
 	r := Value(recv)
 	if fd.Recv != nil && len(fd.Recv.List) > 0 {
@@ -483,6 +503,7 @@ func (it *Interp) libraryFunc(fn *types.Func, call *ast.CallExpr) (Value, bool) 
 	for _, a := range call.Args {
 		args = append(args, it.eval(a))
 	}
+	it.spread = call.Ellipsis != token.NoPos
 	return it.inlineCall(fd, info, nil, args, call.Pos()), true
 }
 
